@@ -10,6 +10,7 @@ Inductive out_obs :=
 | OutNone                       (* outputs = None *)
 | OutMarket (id : N)            (* One(EngineOutput::MarketDisconnect(x)), x produced by on_disconnect(.., id) *)
 | OutAccount (id : N)           (* One(EngineOutput::AccountDisconnect(x)) *)
+| OutPositionExit               (* One(EngineOutput::PositionExit(_)): an account trade item closed a position *)
 | OutPanic                      (* Engine::process panicked *)
 | OutOther.                     (* anything else (several outputs, errors, another variant) *)
 
@@ -24,19 +25,34 @@ Record obs := mkObs {
 (** [c_ids]: IndexedInstruments::exchanges() in index order.  [c_start]: None = the engine as
     built (generate_empty_indexed_connectivity_states); Some (g, links) = connectivity fields
     overwritten with this table before the first event (exhaustive single-step table; may be a
-    state no history reaches).  Events are fed one by one to Engine::process. *)
+    state no history reaches).  Events are fed one by one to Engine::process.
+    [c_kinds]: for every event the kind of item the harness sent (0 = notice; 1.. = market item:
+    public trade, L1 two-sided / bid only / ask only / empty, L2 snapshot / update / empty
+    snapshot, candle, liquidation; 100.. = account item: empty and full account snapshot, balance
+    snapshot, order snapshot in every order state incl. OpenFailed with every connectivity / API
+    error, cancel response Ok and Err with every error class, trade buy / sell).  It is a tag
+    only: the model's events, like the property, do not distinguish item kinds — ANY item from a
+    link heals it — so both judgements ignore it. *)
 Record case := mkCase {
   c_ids : list N;
   c_start : option (health * list cstate);
   c_events : list event;
+  c_kinds : list N;
   c_obs : list obs }.
 
 Definition cstate_eqb (a b : cstate) : bool :=
   health_eqb (market_data a) (market_data b) && health_eqb (account a) (account b).
 Definition entries_eqb := list_eqb (pair_eqb N.eqb cstate_eqb).
 
-Definition out_matches (m : output) (o : out_obs) : bool :=
+Definition is_account_item (ev : event) : bool :=
+  match ev with AccountItem _ => true | _ => false end.
+
+(** the engine's other output for an account item (a position closed by a fill) says nothing
+    about connectivity: it is accepted where the model, which abstracts from item payloads,
+    produces no output *)
+Definition out_matches (ev : event) (m : output) (o : out_obs) : bool :=
   match m, o with
+  | ONone, OutPositionExit => is_account_item ev
   | ONone, OutNone => true
   | OMarketDisconnect a, OutMarket b => N.eqb a b
   | OAccountDisconnect a, OutAccount b => N.eqb a b
@@ -57,7 +73,7 @@ Fixpoint corr_run (e : engine) (evs : list event) (os : list obs) : bool :=
       let e' := fst (process e ev) in
       health_eqb (global (econn e')) (o_global o) &&
       entries_eqb (exchanges (econn e')) (o_links o) &&
-      out_matches (snd (process e ev)) (o_out o) &&
+      out_matches ev (snd (process e ev)) (o_out o) &&
       list_eqb N.eqb (skipn (length (calls e)) (calls e')) (o_calls o) &&
       corr_run e' evs' os'
   | _, _ => false
@@ -104,7 +120,7 @@ Definition expected_out (i : N) (k : lkind) (item : bool) : out_obs :=
 
 Definition out_obs_eqb (a b : out_obs) : bool :=
   match a, b with
-  | OutNone, OutNone | OutPanic, OutPanic | OutOther, OutOther => true
+  | OutNone, OutNone | OutPanic, OutPanic | OutOther, OutOther | OutPositionExit, OutPositionExit => true
   | OutMarket x, OutMarket y | OutAccount x, OutAccount y => N.eqb x y
   | _, _ => false
   end.
@@ -120,7 +136,9 @@ Definition obs_ok (ids : list N) (prev : list (N * cstate)) (ev : event) (o : ob
       Bool.eqb (is_healthy (o_global o)) (table_all_healthy (o_links o)) &&
       (* on_disconnect exactly once per notice, for that exchange; never for an item *)
       list_eqb N.eqb (if item then [] else [i]) (o_calls o) &&
-      out_obs_eqb (expected_out i k item) (o_out o)
+      (out_obs_eqb (expected_out i k item) (o_out o) ||
+       (* an account item that is a fill may also report the position it closed *)
+       (item && is_account_item ev && out_obs_eqb OutPositionExit (o_out o)))
   end.
 
 (** along a history, also compare every link with the last-event specification *)
